@@ -231,6 +231,7 @@ def load_known_findings():
             if line.startswith("KNOWN-FINDING:"):
                 kv = dict(re.findall(r"(\w+)=(\S+)", line))
                 kv["line"] = line
+                kv["what"] = re.sub(r"^KNOWN-FINDING:\s*((\w+)=(\S+)\s+)*", "", line)
                 open_.append(kv)
             elif line.startswith("fixed:"):
                 kv = dict(re.findall(r"(\w+)=(\S+)", line))
